@@ -177,7 +177,88 @@ def make_cases(rng, tier):
                 cases.append(dict(kind="DepolarizingChannel", n=n, scale=D, qubits=[qs],
                                   build=(lambda qs=qs, lamD=lamD: gates.DepolarizingChannel(qs, lamD / D)),
                                   coq=lambda rho, n=n, qs=qs, lamD=lamD, wl=wl: f"depol_closed {n}%nat {nats(qs)} {D - lamD} {wl} {zmat(rho)}"))
+    # G: DepolarizingChannel as the documented Pauli mixture, k = 1, 2, 3 target qubits (3 of n = 3 and of n = 4, unsorted /
+    #    non-adjacent): every non-identity Pauli string exactly once with weight lam/4^k, identity weight 1 - lam (4^k-1)/4^k.
+    #    Scale Dk = 4 * 4^k so that all weights are integers.
+    P1 = {"I": np.eye(2), "X": np.array([[0, 1], [1, 0]]), "Y": np.array([[0, -1j], [1j, 0]]), "Z": np.diag([1, -1])}
+
+    def pkron(st):
+        M = np.array([[1]])
+        for ch in st:
+            M = np.kron(M, P1[ch])
+        return M
+    places = [(1, (0,)), (2, (1, 0)), (3, (2, 0, 1)), (4, (3, 0, 2))]
+    if tier == "thorough":
+        places += [(3, (0, 1, 2)), (3, (1, 2, 0)), (4, (1, 3, 0)), (4, (0, 2, 3)), (4, (2, 0)), (3, (2, 0))]
+    for n, qs in places:
+        k = len(qs)
+        Dk = 4 * 4 ** k
+        wp = rng.randint(1, 4)                       # D*lam/4^k ; lam = wp*4^k/Dk <= 1
+        strings = ["".join(p) for p in itertools.product("IXYZ", repeat=k)][1:]
+        decl = [(qs, pkron(st)) for st in strings]
+        terms = "[" + "; ".join(f"({wp}, {nats(qs)}, {zmat(M)})" for _, M in decl) + "]"
+        w0 = Dk - wp * (4 ** k - 1)
+        cases.append(dict(kind="DepolarizingChannel", form="pauli_mixture", n=n, scale=Dk, qubits=[qs], w0=w0, terms=terms,
+                          mixture=dict(strings=strings, weight=wp / Dk, decl=decl),
+                          build=(lambda qs=qs, lam=wp * 4 ** k / Dk: gates.DepolarizingChannel(qs, lam)),
+                          coq=lambda rho, n=n, qs=qs, k=k, wp=wp, Dk=Dk:
+                              f"depol_closed {n}%nat {nats(qs)} {Dk - wp * 4 ** k} {wp * 2 ** k} {zmat(rho)}"))
     return cases
+
+
+def embed_np(n, qs, M):
+    """the 2^n operator of M acting on qubits qs (qubit 0 most significant), exact"""
+    d, k = 2 ** n, len(qs)
+    out = np.zeros((d, d), dtype=complex)
+    for r in range(d):
+        rb = [(r >> (n - 1 - q)) & 1 for q in range(n)]
+        for c in range(d):
+            cb = [(c >> (n - 1 - q)) & 1 for q in range(n)]
+            if all(rb[q] == cb[q] for q in range(n) if q not in qs):
+                ri = sum(rb[q] << (k - 1 - t) for t, q in enumerate(qs))
+                ci = sum(cb[q] << (k - 1 - t) for t, q in enumerate(qs))
+                out[r, c] = M[ri, ci]
+    return out
+
+
+def mixture_checks(run, rng, cases):
+    """(a) the object's own (coefficients, gates) are the documented Pauli mixture; (b) apply_kraus over the declared list is the
+    closed form depol_closed (exact, Coq) -- the Kraus list the views and the state-vector sampling use IS the fast-path map"""
+    from qibo.gates.special import FusedGate
+    from qibo.backends import _check_backend
+    be = _check_backend(None)
+    exprs, meta = [], []
+    for cs in cases:
+        mx = cs.get("mixture")
+        if not mx:
+            continue
+        n, qs = cs["n"], cs["qubits"][0]
+        ch = cs["build"]()
+        info = {"class": cs["kind"], "n": n, "qubits": list(qs), "weight": mx["weight"], "nterms_declared": len(mx["strings"]),
+                "nterms_constructed": len(ch.gates)}
+        ok = len(ch.gates) == len(mx["strings"]) == len(ch.coefficients)
+        ok = ok and all(float(c) == mx["weight"] for c in ch.coefficients)
+        ok = ok and float(ch.coefficient_sum) == mx["weight"] * len(mx["strings"])
+        if ok:
+            for g, (dq, dm), st in zip(ch.gates, mx["decl"], mx["strings"]):
+                fg = FusedGate(*range(n))
+                fg.append(g)
+                if not np.array_equal(np.asarray(fg.matrix(be)), embed_np(n, dq, dm)):
+                    ok = False
+                    info["first_wrong_string"] = st
+                    break
+        check(run, f"construction:DepolarizingChannel:pauli_mixture:k={len(qs)}", ok, info)
+        rho = rand_rho(rng, n, False)
+        exprs.append(f"apply_kraus {n}%nat {cs['w0']} {cs['terms']} {zmat(rho)}")
+        exprs.append(cs["coq"](rho))
+        meta.append((cs, rho))
+    if not exprs:
+        return
+    vals = run.coq_eval("C04_mixture.v", HEADER, exprs, timeout=900)
+    for i, (cs, rho) in enumerate(meta):
+        good = vals is not None and np.array_equal(parse_zmat(vals[2 * i]), parse_zmat(vals[2 * i + 1]))
+        check(run, f"pauli_mixture_is_depol_closed:k={len(cs['qubits'][0])}", good,
+              {"class": cs["kind"], "n": cs["n"], "qubits": list(cs["qubits"][0]), "rho": zmat(rho), "coq_compiled": vals is not None})
 
 
 def views_exact(run, cases):
@@ -197,6 +278,8 @@ def views_exact(run, cases):
     hdr = ("From Coq Require Import ZArith List Bool.\nFrom QV Require Import Base.Mat Base.Zi C17.Alg C17.Model C17.ZiInst "
            "C04.ChannelSpec C04.Views.\nImport ListNotations. Open Scope Z_scope.\n")
     sel = [c for c in cases if "terms" in c and c["n"] <= 2][:8]
+    sel += [c for c in cases if c.get("form") == "pauli_mixture" and c not in sel and
+            (c["n"] <= 2 or (run.tier == "thorough" and c["n"] == 3))][:3]
     items, meta = [], []
     for cs in sel:
         n, d, sc = cs["n"], 2 ** cs["n"], cs["scale"]
@@ -437,6 +520,7 @@ def main(run):
                      {"class": cs["kind"], "n": cs["n"], "qubits": [list(q) for q in cs["qubits"]], "view": vb})
     run.oblige("correspondence_dm_execution_equals_declared_map", nbad == 0, "correspondence")
     views_exact(run, cases)
+    mixture_checks(run, rng, cases)
     kraus_lists(run, rng)
     fast_vs_kraus(run, rng, run.tier)
     for key, stt in _checks.items():
